@@ -13,8 +13,9 @@
     process audit event, writes nothing outside that set and leaves input and configuration
     byte-identical; third-party libraries and C extensions are observed only through audit events and the
     file-system snapshot. *)
-From RP2V Require Import Base.Prelude Base.Sorting Model.Types Model.Generated Model.MainRun Model.Imports
-  Proofs.RunLemmas Proofs.C18Proofs.
+From RP2V Require Import Base.Prelude Base.Sorting Model.Types.
+From RP2V Require Import Model.Generated Model.MainRun Model.Imports.
+From RP2V Require Import Proofs.RunLemmas Proofs.C18Proofs.
 Open Scope Z_scope.
 
 Theorem C18_imports_allowed : forall m imps imp, In (m, imps) import_table -> In imp imps -> import_ok imp = true.
